@@ -798,6 +798,63 @@ func runScenario(sc scenario, out sink, rnd func(int) int) (fails []fail) {
 		}
 	}
 
+	// -- single-character corruptions of the secret, every position x every class of change:
+	// the importer must be refused or hold exactly HKDF(the corrupted secret), never the minter's key
+	npos := len(secret)
+	base := len(claim) - len(secret)
+	var hsPositions []int
+	if sc.Corrupt < 0 {
+		for i := 0; i < npos; i++ {
+			hsPositions = append(hsPositions, i)
+		}
+	} else {
+		for i := 0; i < sc.Corrupt; i++ {
+			hsPositions = append(hsPositions, rnd(npos))
+		}
+		for i := 0; i < npos; i++ { // make sure a letter (case flip possible) is among them
+			if secret[i] >= 'a' && secret[i] <= 'f' {
+				hsPositions = append(hsPositions, i)
+				break
+			}
+		}
+	}
+	casesLeft := 2
+	for i := 0; i < npos; i++ {
+		for _, v := range variants(secret[i], rnd) {
+			cb := []byte(claim)
+			cb[base+i] = v.b
+			cclaim := string(cb)
+			C := security.NewSessionCache()
+			out.OracleCheck()
+			clo := time.Now().UnixNano()
+			csid, err := security.ImportClaimSession(C, cclaim, security.ClaimSessionOptions{})
+			chi := time.Now().UnixNano()
+			if err != nil {
+				continue // refusing a corrupted claim is fine
+			}
+			eC, ok := security.VerifC16Entry(C, csid)
+			if !ok || eC.KeyInfo() == nil {
+				continue
+			}
+			out.Count("corrupt-" + v.kind)
+			if bytes.Equal(eC.KeyInfo().Data, obsA.Key) {
+				bad("corrupt-secret-same-key", "secret[%d] corrupted %q -> %q (%s) still derives the minter's key", i, secret[i], v.b, v.kind)
+			}
+			_, _, ckey, cok := specSplit(cclaim)
+			if cok && !bytes.Equal(eC.KeyInfo().Data, specHKDF([]byte(ckey), 32)) {
+				bad("corrupt-secret-key-not-hkdf", "importer of a claim with secret[%d] corrupted %q -> %q (%s) does not hold HKDF(its own secret %q)", i, secret[i], v.b, v.kind, ckey)
+			}
+			if casesLeft > 0 && (v.kind == "case" || v.kind == "space") {
+				casesLeft--
+				if obsC, err := observeEntry(eC); err == nil {
+					cm, _ := cmdKeys(C, csid)
+					out.AddCase(wrap(fmt.Sprintf("(CImport false %s %s %s %s (Some (%s, %s, %s)))", hx(cclaim), impOpts{}.term(), core.Z(clo), core.Z(chi),
+						hx(csid), obsC.term(ckey), hxlist(cm))), desc)
+				}
+			}
+		}
+	}
+
 	if !sc.Hs {
 		return
 	}
@@ -819,63 +876,68 @@ func runScenario(sc scenario, out sink, rnd func(int) int) (fails []fail) {
 	}
 	out.Count("handshake-pairs")
 
-	// -- single-character corruptions of the secret
-	npos := len(secret)
-	var positions []int
-	if sc.Corrupt < 0 {
-		for i := 0; i < npos; i++ {
-			positions = append(positions, i)
-		}
-	} else {
-		for i := 0; i < sc.Corrupt; i++ {
-			positions = append(positions, rnd(npos))
-		}
-	}
-	base := len(claim) - len(secret)
-	for i := 0; i < npos; i++ { // every position: the derived key must differ
-		cb := []byte(claim)
-		cb[base+i] = otherHex(cb[base+i], rnd(16))
-		C := security.NewSessionCache()
-		out.OracleCheck()
-		csid, err := security.ImportClaimSession(C, string(cb), security.ClaimSessionOptions{})
-		if err != nil {
-			continue // refusing a corrupted claim is fine
-		}
-		if eC, ok := security.VerifC16Entry(C, csid); ok && eC.KeyInfo() != nil && bytes.Equal(eC.KeyInfo().Data, obsA.Key) {
-			bad("corrupt-secret-same-key", "secret corrupted at position %d still derives the minter's key", i)
-		}
-	}
-	for _, i := range positions {
-		cb := []byte(claim)
-		cb[base+i] = otherHex(cb[base+i], rnd(16))
-		if rnd(8) == 0 {
-			cb[base+i] = "gZ_ "[rnd(4)]
-		}
-		C := security.NewSessionCache()
-		csid, err := security.ImportClaimSession(C, string(cb), security.ClaimSessionOptions{})
-		if err != nil {
-			continue
-		}
-		// the good side: a fresh cache holding the genuine session (a client drops a session whose
-		// resumption failed, by design, so the minter's own cache is not reused across attempts)
-		for dir := 0; dir < 2; dir++ {
-			G := security.NewSessionCache()
-			if _, err := security.ImportClaimSession(G, claim, security.ClaimSessionOptions{PeerFQU: security.SubmitSideMatchSessionFQU}); err != nil {
-				bad("import-refused", "ImportClaimSession refused a freshly minted claim id: %v", err)
-				return
+	// -- single-character corruptions of the secret through real handshakes
+	for _, i := range hsPositions {
+		for _, v := range variants(secret[i], rnd) {
+			if v.kind != "hex" && v.kind != "case" && rnd(4) != 0 {
+				continue // the look-alike classes always, the other classes sampled
 			}
-			out.OracleCheck()
-			if dir == 0 {
-				if r := handshake(C, G, csid, 443, ping); r.delivered() || r.works(ping) {
-					bad("corrupt-secret-resumes", "importer with the secret corrupted at position %d talks to the holder of the genuine session: %+v", i, r)
+			cb := []byte(claim)
+			cb[base+i] = v.b
+			C := security.NewSessionCache()
+			csid, err := security.ImportClaimSession(C, string(cb), security.ClaimSessionOptions{})
+			if err != nil {
+				continue
+			}
+			// the good side: a fresh cache holding the genuine session (a client drops a session whose
+			// resumption failed, by design, so the minter's own cache is not reused across attempts)
+			for dir := 0; dir < 2; dir++ {
+				G := security.NewSessionCache()
+				if _, err := security.ImportClaimSession(G, claim, security.ClaimSessionOptions{PeerFQU: security.SubmitSideMatchSessionFQU}); err != nil {
+					bad("import-refused", "ImportClaimSession refused a freshly minted claim id: %v", err)
+					return
 				}
-			} else if r := handshake(G, C, sid, 443, ping); r.delivered() || r.works(ping) {
-				bad("corrupt-secret-resumes", "holder of the genuine session talks to an importer whose secret is corrupted at position %d: %+v", i, r)
+				out.OracleCheck()
+				if dir == 0 {
+					if r := handshake(C, G, csid, 443, ping); r.delivered() || r.works(ping) {
+						bad("corrupt-secret-resumes", "importer with secret[%d] corrupted %q -> %q (%s) talks to the holder of the genuine session: %+v", i, secret[i], v.b, v.kind, r)
+					}
+				} else if r := handshake(G, C, sid, 443, ping); r.delivered() || r.works(ping) {
+					bad("corrupt-secret-resumes", "holder of the genuine session talks to an importer with secret[%d] corrupted %q -> %q (%s): %+v", i, secret[i], v.b, v.kind, r)
+				}
 			}
+			out.Count("corrupt-handshakes")
 		}
-		out.Count("corrupt-handshakes")
 	}
 	return
+}
+
+// variants lists the single-character corruptions tried at one position of the secret:
+// another hex digit, the same letter in the other case, the neighbouring digit/letter,
+// white space, NUL, a non-hex letter, a grammar delimiter.
+type variant struct {
+	kind string
+	b    byte
+}
+
+func variants(c byte, rnd func(int) int) []variant {
+	vs := []variant{{"hex", otherHex(c, rnd(16))}}
+	if c >= 'a' && c <= 'f' {
+		vs = append(vs, variant{"case", c - 'a' + 'A'})
+	}
+	if c >= 'A' && c <= 'F' {
+		vs = append(vs, variant{"case", c - 'A' + 'a'})
+	}
+	switch {
+	case c == '9':
+		vs = append(vs, variant{"adjacent", '8'})
+	case c == 'f':
+		vs = append(vs, variant{"adjacent", 'e'})
+	default:
+		vs = append(vs, variant{"adjacent", c + 1})
+	}
+	vs = append(vs, variant{"space", " \t"[rnd(2)]}, variant{"nul", 0}, variant{"nonhex", "gZ_O"[rnd(4)]}, variant{"delimiter", "#]["[rnd(3)]})
+	return vs
 }
 
 func (e entryObs) policyUser() string { return pstr(e.Policy, "User") }
@@ -1115,6 +1177,30 @@ func keyCase(c *core.Ctx, secret string, n int) {
 		c.OracleFail("key-not-hkdf", fmt.Sprintf("deriveSessionKey(%q) is not HKDF-SHA256(salt htcondor, info keygen)", secret), desc)
 	}
 	c.Count("key")
+}
+
+// claimKeyCase: deriveClaimKeyInfo (shared by the mint and the import path) on a policy and an
+// arbitrary secret; the key must be HKDF of exactly that secret.
+func claimKeyCase(c *core.Ctx, crypto *string, secret string) {
+	desc := map[string]interface{}{"kind": "claimkey", "crypto": crypto, "secret": []byte(secret)}
+	ad := classad.New()
+	var ps []pv
+	if crypto != nil {
+		_ = ad.Set("CryptoMethods", *crypto)
+		ps = append(ps, pv{Name: "CryptoMethods", Kind: "s", S: *crypto})
+	}
+	ki, err := security.VerifC16DeriveClaimKeyInfo(ad, secret)
+	c.OracleCheck()
+	if err != nil || ki == nil {
+		c.AddCase(fmt.Sprintf("(CClaimKey %s %s None)", policyTerm(ps), hx(secret)), desc)
+		c.Count("claimkey-error")
+		return
+	}
+	c.AddCase(fmt.Sprintf("(CClaimKey %s %s (Some (%s, %s)))", policyTerm(ps), hx(secret), keyTerm(ki.Data, secret), hx(ki.Protocol)), desc)
+	c.Count("claimkey-ok")
+	if !bytes.Equal(ki.Data, specHKDF([]byte(secret), 32)) || ki.Protocol != "AESGCM" {
+		c.OracleFail("claimkey-not-hkdf", fmt.Sprintf("deriveClaimKeyInfo(%q) is not HKDF-SHA256 of exactly that secret (salt htcondor, info keygen)", secret), desc)
+	}
 }
 
 func expiryCase(c *core.Ctx, s string, fb int64) {
@@ -1446,6 +1532,39 @@ func gen(c *core.Ctx) error {
 		keyCase(c, randFrom(c, "0123456789abcdef", 64), 32)
 	}
 
+	// 6b. deriveClaimKeyInfo on look-alike secrets: the key must depend on every byte as given
+	const lower = "0123456789abcdef0123456789abcdef0123456789abcdef0123456789abcdef"
+	lookalikes := []string{lower, strings.ToUpper(lower), "0123456789Abcdef" + lower[16:], lower[:63] + "F", " " + lower, lower + " ", lower + "\n", lower + "\x00", "\x00" + lower,
+		lower[:32], lower + lower[:2], "0" + lower, strings.TrimLeft(lower, "0"), "0x" + lower, "Secret", "secret", "SECRET", "a", "A", " a", "a ", "\ta", "", "k#y", "k]y"}
+	aes, multi, blow, lowaes := "AES", "AES,BLOWFISH", "BLOWFISH", "aes"
+	for _, sct := range lookalikes {
+		for _, cp := range []*string{nil, &aes, &multi, &blow, &lowaes} {
+			claimKeyCase(c, cp, sct)
+		}
+		keyCase(c, sct, 32)
+		// and through the whole import path, as the trailing key of a claim id
+		if !strings.ContainsAny(sct, "#]") {
+			importCase(c, false, `<10.0.0.1:9618>#1#1#[CryptoMethods="AES";]`+sct, impOpts{})
+			importCase(c, true, `<10.0.0.1:9618>#1#1#[CryptoMethods="AES";]`+sct, impOpts{})
+		}
+	}
+	// distinct look-alike secrets must give pairwise distinct keys
+	seen := map[string]string{}
+	for _, sct := range lookalikes {
+		if sct == "" {
+			continue
+		}
+		ki, err := security.VerifC16DeriveClaimKeyInfo(classad.New(), sct)
+		c.OracleCheck()
+		if err != nil {
+			continue
+		}
+		if prev, dup := seen[string(ki.Data)]; dup {
+			c.OracleFail("claimkey-collision", fmt.Sprintf("secrets %q and %q derive the same claim key", prev, sct), map[string]interface{}{"kind": "claimkey", "secret": []byte(sct)})
+		}
+		seen[string(ki.Data)] = sct
+	}
+
 	// 7. expiry strings (integer versus string, signs, blanks, overflow)
 	exps := []string{"1700000000", " 1700000000 ", "\t5\n", "0", "-1", "+7", "", " ", "12a", "1 2", "9223372036854775807", "9223372036854775808", "-9223372036854775808", "-9223372036854775809",
 		"00012", "1_000", "0x10", "1e3", "١٢", "--1", "+-1", "+", "-", "99999999999999999999999"}
@@ -1526,6 +1645,21 @@ func replay(raw json.RawMessage) error {
 	case "short":
 		if want, known := shortOf(k.V); known && security.VerifC16ShortVersion(k.V) != want {
 			return fmt.Errorf("shortVersion(%q) = %q, want %q", k.V, security.VerifC16ShortVersion(k.V), want)
+		}
+	case "claimkey":
+		var ck struct {
+			Crypto *string `json:"crypto"`
+			Secret []byte  `json:"secret"`
+		}
+		if err := json.Unmarshal(raw, &ck); err != nil {
+			return err
+		}
+		ad := classad.New()
+		if ck.Crypto != nil {
+			_ = ad.Set("CryptoMethods", *ck.Crypto)
+		}
+		if ki, err := security.VerifC16DeriveClaimKeyInfo(ad, string(ck.Secret)); err == nil && !bytes.Equal(ki.Data, specHKDF(ck.Secret, 32)) {
+			return fmt.Errorf("deriveClaimKeyInfo(%q) is not HKDF-SHA256 of exactly that secret", ck.Secret)
 		}
 	case "key":
 		got, err := security.VerifC16DeriveSessionKey(k.Secret, k.Len)
